@@ -368,6 +368,13 @@ func (st *State) enterBlock() bool {
 	if fr.parent != nil {
 		pfx = shortKey(fkey) + "." + pfx
 	}
+	if ls != nil {
+		for _, gs := range ls.GhostSets {
+			env := st.newEnv(fr, nil)
+			st.ghostAssign(env, gs[0], gs[1])
+			st.assumeAll(env.defs)
+		}
+	}
 	if back {
 		if h := st.u.houdini; h != nil && h.header == fr.block && h.depth == fr.depth {
 			h.states = append(h.states, st)
@@ -1587,6 +1594,16 @@ func (st *State) ghostAssign(env *Env, target, value *Expr) {
 		h := st.heapGet(hn, sort)
 		st.heapSet(hn, sort, Store(h, ref, v.Tm))
 		return
+	case EIndex:
+		// ghostarr[idx] := v
+		if target.Args[0].Kind == EIdent {
+			if g := env.ghostVar(target.Args[0].Op); g != nil && strings.HasPrefix(string(g.Tm.Sort), "(Array") {
+				hn := st.ghostHeapName(env, target.Args[0].Op)
+				idx := env.eval(target.Args[1])
+				st.heapSet(hn, g.Tm.Sort, Store(st.heapGet(hn, g.Tm.Sort), idx.Tm, v.Tm))
+				return
+			}
+		}
 	case EIdent:
 		if g := env.ghostVar(target.Op); g != nil {
 			pk := ""
@@ -1606,4 +1623,20 @@ func (st *State) ghostAssign(env *Env, target, value *Expr) {
 		}
 	}
 	panic(specErr("unsupported ghostset target %s", target))
+}
+
+func (st *State) ghostHeapName(env *Env, name string) string {
+	e := st.eng()
+	pk := ""
+	if env.pkg != nil {
+		pk = env.pkg.Name()
+	}
+	if env.callee != nil {
+		pk = env.callee.PkgName
+	}
+	gd := e.specs.Ghosts[pk+"."+name]
+	if gd == nil {
+		gd = e.specs.Ghosts["prelude."+name]
+	}
+	return "GH_" + sanitize(gd.PkgName+"_"+gd.Name)
 }
